@@ -104,4 +104,10 @@ CLAIMED['C10'] = dict(
     technique='AST->z3 integer translation of the staff-position kernels (unsat for all octaves) + CrossHair-engine enumeration of the clef/pitch grid and of documents against a text-level clef-in-force model',
     design='5 C10')
 
+CLAIMED['C15'] = dict(
+    text=BMC + 'C15: solver-enumerated selectors (document, all 40 intervals, both directions) drive Document.to_transposed on pool documents of the claimed core (single notes without explicit accidentals, with signifiers, dotted/grace durations, rests, barlines, interpretations, field comments, split/join, non-kern spines); the transposed export is compared cell by cell with the cell model whose pitches are moved by the independent letter/semitone model of C09 (exceptions allowed only where a result is unspellable), the round trip back restores the source export, a repeated call on a fresh import agrees; the three classes the property tracks (explicit accidentals, chord notes, state of the source document) are separate obligations whose failures are open known findings; invalid interval names / directions must raise ValueError.',
+    note=NOTE + 'Three open known findings (source document rewritten through the shallow clone; accidentals; chords), as the property itself anticipates. The arithmetic for all octaves is C09.a (SMT).',
+    technique='CrossHair-engine exhaustive enumeration (z3-decided selectors) of to_transposed over documents x 40 intervals x 2 directions against the cell model + letter/semitone pitch model, composed with the C09 SMT lemma',
+    design='5 C15')
+
 PENDING_REASON = 'check under construction in this session (to be claimed; see DESIGN.md section 5)'
